@@ -95,12 +95,19 @@ pub fn all_values<T: NT>() -> Vec<T> {
     (0..=T::MAXV).map(|v| T::from_u16(v).expect("harness: in-range u16 must convert")).collect()
 }
 
+macro_rules! __sig {
+    ($chk:expr, $id:expr, $rule:expr, $cls:expr) => {
+        format!("{}/{}/{}/{}", $id, $rule, $cls, $chk.part).replace(' ', "_")
+    };
+}
 macro_rules! vio {
     ($chk:expr, $id:expr, $rule:expr, $cls:expr, $case:expr, $($fmt:tt)*) => {
+        if !$chk.flooded(&__sig!($chk, $id, $rule, $cls)) {
         $chk.violate(
             Violation::new(<_ as AsRef<str>>::as_ref(&$rule), format!("{}/{}/{}/{}", $id, $rule, $cls, $chk.part), format!($($fmt)*))
                 .with_case(($case).to_string()),
         )
+        }
     };
 }
 
